@@ -50,6 +50,11 @@ def make(shape: Dict[str, Any]) -> Any:
         for s in svcs:
             zc.registry.async_add(s.info())
         proto = zc.engine.protocols[0]
+        if shape.get('loopback'):
+            # the instance hears its own multicast (IP_MULTICAST_LOOP): every record it transmits is a sighting from then on
+            from vkit.link import Link
+
+            Link(loop, ctx, None, []).attach('10.0.0.1', zc)
         sight: Dict[Tuple, Any] = {}
         for key, kind in sighted:
             s = cat[key]
@@ -59,11 +64,13 @@ def make(shape: Dict[str, Any]) -> Any:
             sight[spec.ident] = when
         # ---- drive
         arrivals: List[Any] = []
+        sent_before: List[int] = []  # transmissions made before each packet was handed in
         for i, ev in enumerate(events):
             if i > 0:
                 loop.advance_by(ctx.int(f'gap{i}', 0, 2000))
             now = loop.now_ms
             arrivals.append(now)
+            sent_before.append(len(env.sent_log(zc)))
             known_recs = []
             for j, (key, kind) in enumerate(ev.get('known', [])):
                 s = cat[key]
@@ -132,6 +139,12 @@ def make(shape: Dict[str, Any]) -> Any:
             if lq['probe']:
                 return last, last
             s_when = sight.get(ident)
+            if shape.get('loopback'):
+                # own transmissions made before the query arrived (answers and additionals alike) are sightings too
+                for s in sends[: sent_before[lq['members'][-1]]]:
+                    if any(spec_ident(r, lq['expected']) == ident for r in s.records()):
+                        if s_when is None or s.t > s_when:
+                            s_when = s.t
             if s_when is not None and last - s_when < 1000:
                 lo = last + 1020
                 return (lo if lo > s_when + 1000 else s_when + 1000), last + 1200
@@ -206,6 +219,9 @@ QUICK: Dict[str, Dict[str, Any]] = {
     'tc-alone': {'events': [q((T1, PTR), tc=True)]},
     'tc-then-final': {'events': [q((T1, PTR), tc=True), q((T1, PTR), known=[('S1', 'PTR')])]},
     'known-suppresses': {'events': [q((T1, PTR), known=[('S1', 'PTR')])]},
+    'loopback-ptr-ptr': {'events': [q((T1, PTR)), q((T1, PTR))], 'loopback': True, 'services': ['S1']},
+    'loopback-ptr-srv': {'events': [q((T1, PTR)), q((N1, SRV))], 'loopback': True, 'services': ['S1']},
+    'loopback-srv-srv': {'events': [q((N1, SRV)), q((N1, SRV))], 'loopback': True, 'services': ['S1']},
 }
 THOROUGH: Dict[str, Dict[str, Any]] = {
     'ptr-ptr-ptr': {'events': [q((T1, PTR)), q((T1, PTR)), q((T2, PTR))]},
@@ -221,6 +237,9 @@ THOROUGH: Dict[str, Dict[str, Any]] = {
     'probe-then-ptr': {'events': [q((T1, PTR), probe=True), q((T1, PTR))]},
     'srv-then-ptr': {'events': [q((N1, SRV)), q((T1, PTR))]},
     'ptr2-srv3': {'events': [q((T2, PTR)), q((N3, SRV)), q((T2, PTR))]},
+    'loopback-ptr-a-ptr': {'events': [q((T1, PTR)), q(('alpha.local.', A)), q((T1, PTR))], 'loopback': True, 'services': ['S1']},
+    'loopback-txt-ptr': {'events': [q((N1, TXT)), q((T1, PTR))], 'loopback': True, 'services': ['S1']},
+    'loopback-probe-ptr': {'events': [q((T1, PTR), probe=True), q((T1, PTR))], 'loopback': True, 'services': ['S1']},
 }
 
 
@@ -246,7 +265,7 @@ META = {
     'outside': [
         'the one-second rule for records travelling in the additional section (the statement speaks of answers; additionals ride with their answer)',
         'more than 3 queries / trains of more than 3 packets; QU questions and non-5353 sources (C11)',
-        'the host hearing its own multicast (no loopback in the harness: sightings are initial cache state)',
+        'the host hearing its own multicast is modelled in the loopback-* shapes only (instant loop-back); elsewhere sightings are initial cache state',
         'exact upper bound for a timer-released truncated train: checked as last packet + 400 .. + 1000 ms',
         'previous sightings combined with truncated trains (which packet of the train counts as "the query arrived" is not fixed by the statement)',
     ],
